@@ -97,8 +97,11 @@ func runC18(args []string) int {
 		{"cubic", func() frontend.Circuit { return &cubic{} }, func() frontend.Circuit { return &cubic{X: 3, Y: 35} }, func() frontend.Circuit { return &cubic{X: 3, Y: 36} }},
 		{"commit1", func() frontend.Circuit { return &cm1{} }, func() frontend.Circuit { return &cm1{X: 3, W: 5, Y: 9} }, func() frontend.Circuit { return &cm1{X: 3, W: 5, Y: 10} }},
 	}
+	// two and three commitments: every sigma_i has its own update proof
+	circs = append(circs, circ{"commit2", func() frontend.Circuit { return &cm2{} }, func() frontend.Circuit { return &cm2{X: 3, W: 5, Y: 9, Z: 4} }, func() frontend.Circuit { return &cm2{X: 3, W: 5, Y: 8, Z: 4} }},
+		circ{"commit3", func() frontend.Circuit { return &cm3{} }, func() frontend.Circuit { return &cm3{X: 2, W: 5, V: 11, P1: 4, P2: 6} }, func() frontend.Circuit { return &cm3{X: 2, W: 5, V: 11, P1: 5, P2: 6} }})
 	if o.Thorough() {
-		circs = append(circs, circ{"commit2", func() frontend.Circuit { return &cm2{} }, func() frontend.Circuit { return &cm2{X: 3, W: 5, Y: 9, Z: 4} }, func() frontend.Circuit { return &cm2{X: 3, W: 5, Y: 8, Z: 4} }},
+		circs = append(circs,
 			circ{"size-14", func() frontend.Circuit { return &sizedCircuit{n: 14} }, func() frontend.Circuit { return &sizedCircuit{X: 3, Y: new(big.Int).Exp(big.NewInt(3), big.NewInt(15), bnQ), n: 14} }, func() frontend.Circuit { return &sizedCircuit{X: 3, Y: 1, n: 14} }})
 	}
 	_, _, g1, g2 := curve.Generators()
